@@ -44,11 +44,11 @@ inline void generate_plane_rotation(T dx, T dy, T &cs, T &sn) {
         sn = 0;
     } else if (std::abs(dy) > std::abs(dx)) {
         T tmp = dx / dy;
-        sn = math::inverse(sqrt(math::identity<T>() + tmp * tmp));
+        sn = math::inverse(sqrt(math::identity<T>() + tmp * math::adjoint(tmp)));
         cs = tmp * sn;
     } else {
         T tmp = dy / dx;
-        cs = math::inverse(sqrt(math::identity<T>() + tmp * tmp));
+        cs = math::inverse(sqrt(math::identity<T>() + tmp * math::adjoint(tmp)));
         sn = tmp * cs;
     }
 }
